@@ -521,7 +521,10 @@ pub fn run(ctx: &Ctx) -> Report {
     let mut fired: HashSet<String> = HashSet::new();
     let mut interleavings: HashSet<String> = HashSet::new();
     for s0 in &f0_scripts {
-        for s1 in &f1_scripts {
+        for (s1_index, s1) in f1_scripts.iter().enumerate() {
+            // quick tier: what follows an action reported as an error is explored for three of the ten
+            // representative scripts of fiber 1 (the empty one, yield-then-return, call of fiber 0)
+            let continue_after_errors = thorough || [0usize, 2, 4].contains(&s1_index);
             let scripts = [s0.clone(), s1.clone()];
             let code: Vec<Vec<Ins>> = scripts.iter().enumerate().map(|(f, s)| compile(f, s)).collect();
             let params: Vec<bool> = scripts.iter().map(|s| s.param).collect();
@@ -537,12 +540,21 @@ pub fn run(ctx: &Ctx) -> Report {
                 aborted: None,
             };
             // BFS over main action sequences
-            let mut seen: HashSet<World> = HashSet::new();
-            seen.insert(init.clone());
-            let mut queue: VecDeque<(World, Vec<Main>, Vec<String>)> = VecDeque::new();
-            queue.push_back((init, vec![], vec![]));
+            // states are merged by model state; a main action that leaves the model state unchanged (an
+            // error, has_finished) is remembered as a marker so that what follows it is explored too, with
+            // that action in the replayed path
+            let mut seen: HashSet<(World, Option<Main>)> = HashSet::new();
+            seen.insert((init.clone(), None));
+            let mut seen_markers: HashSet<(World, Main)> = HashSet::new();
+            // second rendering of the same transitions: the fibers are defined in a module, the main
+            // program has globals of its own and uses them straight after every action (only for the
+            // plain wrapper without parameter: the hand-over of control between modules does not depend
+            // on what the fiber's body is wrapped in)
+            let in_module = s0.wrap == Wrap::None && !s0.param;
+            let mut queue: VecDeque<(World, Vec<Main>, Vec<String>, Vec<String>)> = VecDeque::new();
+            queue.push_back((init, vec![], vec![], vec![]));
             total_states += 1;
-            while let Some((w, path, out)) = queue.pop_front() {
+            while let Some((w, path, out, out_steps)) = queue.pop_front() {
                 max_depth = max_depth.max(path.len());
                 if w.aborted.is_some() || path.len() >= main_depth {
                     continue;
@@ -572,9 +584,55 @@ pub fn run(ctx: &Ctx) -> Report {
                         describe: json!({"fiber_scripts": format!("{:?}", scripts), "main_path": format!("{:?}", p2)}),
                         nontrivial: p2.len() >= 2,
                     });
-                    if seen.insert(w2.clone()) {
+                    let mut steps2 = out_steps.clone();
+                    steps2.extend(m.out[out.len()..].iter().cloned());
+                    if w2.aborted.is_none() {
+                        steps2.push(format!("step {}", p2.len()));
+                    }
+                    if in_module {
+                        let mut main = String::from("import \"d\";\nvar F0 = d.F0;\nvar F1 = d.F1;\nvar step = 0;\n");
+                        for x in &p2 {
+                            main.push_str(&render_main(*x));
+                            main.push_str("step = step + 1;\nprint(\"step ${step}\");\n");
+                        }
+                        main.push_str("print(\"end\");\n");
+                        let mut exp = steps2.clone();
+                        if w2.aborted.is_none() {
+                            exp.push("end".into());
+                        }
+                        let mut modules = std::collections::BTreeMap::new();
+                        modules.insert("d".to_string(), defs.clone());
+                        cases.push(Expect {
+                            family: "transition_replay_fibers_defined_in_a_module",
+                            request: Request { op: "run".into(), snippets: vec![main], modules, fuel: Some(1_000_000), want: vec!["monitor".into()], ..Default::default() },
+                            out: vec![exp],
+                            end: vec![match &w2.aborted {
+                                Some(msg) => msg.clone(),
+                                None => "ok".to_string(),
+                            }],
+                            describe: json!({"fiber_scripts": format!("{:?}", scripts), "main_path": format!("{:?}", p2), "fibers_in_module": true}),
+                            nontrivial: p2.len() >= 2,
+                        });
+                    }
+                    // (one no-op deep: the path of a marker state ends in exactly one action that left the
+                    // model state unchanged; a second one in a row is replayed but not continued)
+                    let from_marker = path.last().map(|l| seen_markers.contains(&(w.clone(), *l))).unwrap_or(false);
+                    // only actions that were reported as errors: the property says those leave every fiber's
+                    // state untouched (has_finished is the other action without effect; it is not continued)
+                    let was_error = m.out[out.len()..].iter().any(|l| l.starts_with("<class "));
+                    let marker = if w2 == w && was_error && continue_after_errors { Some(a) } else { None };
+                    if w2 == w && marker.is_none() && seen.contains(&(w2.clone(), None)) {
+                        continue;
+                    }
+                    if marker.is_some() && (from_marker || (!thorough && p2.len() > 2)) {
+                        continue;
+                    }
+                    if let Some(mk) = marker {
+                        seen_markers.insert((w2.clone(), mk));
+                    }
+                    if seen.insert((w2.clone(), marker)) {
                         total_states += 1;
-                        queue.push_back((w2, p2, m.out));
+                        queue.push_back((w2, p2, m.out, steps2));
                     }
                 }
             }
@@ -597,7 +655,7 @@ pub fn run(ctx: &Ctx) -> Report {
     expect::fill(
         &mut report,
         &stats,
-        "for every pair of fiber scripts (fiber 0: every script up to the length bound over {print, yield value, yield nothing, x = yield, call the other fiber with/without argument, call itself, has_finished, return, throw} under each wrapper {none, nested function frame, try/catch, local kept across suspensions, captured variable, try/finally around the script, script inside a finally block entered by an exception}, with and without a parameter; fiber 1: representative scripts) a breadth-first search over sequences of main-program actions {call, call with argument, call with two arguments, has_finished, yield at top level} with canonical hashing of the model state; every transition is replayed on the real VM (program = definitions + action path) and must print exactly the model's labels; the fiber/raw-pointer agreement monitor runs at every instruction.",
+        "for every pair of fiber scripts (fiber 0: every script up to the length bound over {print, yield value, yield nothing, x = yield, call the other fiber with/without argument, call itself, has_finished, return, throw} under each wrapper {none, nested function frame, try/catch, local kept across suspensions, captured variable, try/finally around the script, script inside a finally block entered by an exception}, with and without a parameter; fiber 1: representative scripts) a breadth-first search over sequences of main-program actions {call, call with argument, call with two arguments, has_finished, yield at top level} with canonical hashing of the model state; every transition is replayed on the real VM (program = definitions + action path) and must print exactly the model's labels; the fiber/raw-pointer agreement monitor runs at every instruction. For the plain wrapper every transition is replayed a second time with the fibers defined in an imported module and a main program that updates and prints a global of its own straight after every action.",
         json!({"fibers": nf, "script_length": script_len, "main_sequence_length": main_depth}),
     );
     report.cov("states", json!(total_states));
